@@ -48,6 +48,43 @@ def _inputs(ctx, mod):
             ops = histories.concretise(c["ops"], cast)
             ins.append({"id": "g%d" % n, "ops": ops, "cast": cast})
             n += 1
+    # every ordered pair of sets through one shared writer object (write A, write B, write A),
+    # for every writer configuration: state carried from one write into the next
+    pool = [("build", "b_plain"), ("build", "b_styled"), ("build", "b_unclosed"), ("build", "b_px"), ("build", "b_multi"),
+            ("DFXP", "dfxp2"), ("SAMI", "sami4"), ("WebVTT", "vtt2"), ("SCC", "scc2")]
+
+    def mk(item):
+        return {"op": "build", "desc": item[1]} if item[0] == "build" else \
+            {"op": "read", "reader": "P-" + item[1], "kind": item[0], "doc": item[1], "fresh": True}
+    if mod.WRITE_BIAS:
+        pk = 0
+        for kind, cfgs in session.WRITER_CONFIGS.items():
+            for opts in cfgs:
+                for a in pool:
+                    for b in pool:
+                        if a == b:
+                            continue
+                        pk += 1
+                        if ctx.quick and kind in ("SRT", "MicroDVD", "SCC") and pk % 4:
+                            continue
+                        w = {"op": "write", "writer": "w", "kind": kind, "opts": opts}
+                        ins.append({"id": "p%d" % pk, "cast": "pairs", "ops": [
+                            mk(a), mk(b), dict(w, set="s1"), dict(w, set="s2"), dict(w, set="s1")]})
+    else:
+        # every ordered pair of documents of one format through one shared reader object
+        from . import corpus
+        kinds = {}
+        for d, (kd, _) in corpus.docs().items():
+            kinds.setdefault(kd, []).append(d)
+        pk = 0
+        for kd, ds in kinds.items():
+            for a in ds:
+                for b in ds:
+                    pk += 1
+                    rd = lambda d: {"op": "read", "reader": "shared", "kind": kd, "doc": d}
+                    ins.append({"id": "p%d" % pk, "cast": "pairs", "ops": [
+                        rd(a), rd(b), {"op": "edit", "set": "s1", "edit": "add_style"},
+                        {"op": "edit", "set": "s2", "edit": "caption_style"}, rd(a), rd(b)]})
     for k in range(150 if ctx.quick else 4000):
         ins.append({"id": "r%d" % k, "ops": histories.random_history(rng, rng.randrange(12, 21), mod.WRITE_BIAS), "cast": "-"})
     # reference values for every term, computed up front in fresh interpreters
